@@ -167,8 +167,9 @@ def run_apalache(chk, quick):
 
 # --------------------------------------------------------------------------
 def _exact_job(arg):
-    kind, prm, stream, cuts, twice, seed = arg
-    return bc.record(kind, prm, stream, cuts, twice, seed)
+    kind, prm, stream, cuts, twice, seed = arg[:6]
+    thin = len(arg) > 6 and arg[6]
+    return bc.record(kind, prm, stream, cuts, twice, seed, thin=thin)
 
 
 def exact_jobs(chk, pid, quick, rng, cases):
@@ -185,7 +186,8 @@ def exact_jobs(chk, pid, quick, rng, cases):
             c = pool[int(i)]
             W, B = grid[n_ % len(grid)]
             prm = bc.default_params(kind, W, B, allow=(kind == "StreamRandom" and n_ % 3 == 0 and pid != "C04"))
-            jobs.append((kind, prm, c["stream"], c["cuts"], bool(c["twice"]) or pid == "C03", int(n_ % 7)))
+            jobs.append((kind, prm, c["stream"], c["cuts"], bool(c["twice"]) or pid == "C03", int(n_ % 7),
+                         kind in bc.THIN and n_ % 3 == 0))
         # longer random streams with every chunking pattern family
         for n_ in range(60 if quick else 1500):
             W, B = grid[int(rng.integers(len(grid)))]
@@ -200,7 +202,8 @@ def exact_jobs(chk, pid, quick, rng, cases):
                 stream = [int(v) for v in rng.choice(vals, size=L)]
             cuts = [c for c in range(1, L) if rng.random() < (0.0, 0.3, 0.6, 1.0)[n_ % 4]]
             prm = bc.default_params(kind, W, B, allow=False)
-            jobs.append((kind, prm, stream, cuts, pid == "C03" or n_ % 5 == 0, int(rng.integers(0, 50))))
+            jobs.append((kind, prm, stream, cuts, pid == "C03" or n_ % 5 == 0, int(rng.integers(0, 50)),
+                         kind in bc.THIN and n_ % 3 == 1))
     return jobs
 
 
@@ -217,7 +220,8 @@ def chunkings_jobs(rng, quick):
             seed = int(rng.integers(0, 50))
             for mask in range(2 ** (L - 1)):
                 cuts = [i + 1 for i in range(L - 1) if mask >> i & 1]
-                jobs.append((kind, bc.default_params(kind, W, B), stream, cuts, False, seed))
+                jobs.append((kind, bc.default_params(kind, W, B), stream, cuts, False, seed,
+                             kind in bc.THIN and rep % 2 == 1))
     return jobs
 
 
@@ -306,7 +310,8 @@ def main_for(pid, tier="quick", seed=0):
     own = OWN[pid]
     chk.rule = ("exact regime: stream scenarios enumerated by TLC (BudgetGen: all utility streams over "
                 "{0,1/4,1/2,3/4,1,NaN} up to length 4 x all cuts x repeated queries) plus longer adversarial streams, "
-                "each replayed on every manager kind / baseline strategy over a (w, budget) grid; protocol regime: "
+                "each replayed on every manager kind / baseline strategy and (one third) on the uncertainty stream strategy "
+                "around that manager with a stub classifier, over a (w, budget) grid; protocol regime: "
                 "all stream strategies (default and explicit managers) and managers on long random streams with "
                 "random chunkings and inserted extra queries. distinct = (kind, parameters, stream, cuts); "
                 "non-trivial = at least 2 instances and at least one granted label or one budget refusal")
